@@ -198,6 +198,14 @@ def optable(tier, rng):
         add("bin:and:guard-lit:%s" % bn, bin_("and", lit(W(False)), b), TW, su)
         add("bin:or:guard-nested:%s" % bn, bin_("or", bin_("and", lit(W(False)), b), bin_("or", lit(W(True)), b)), TW, su)
         add("stmt:if:guard:%s" % bn, ident("sn"), TZ, su + [if_(bin_("and", bin_("ne", ident("sk"), zl(0)), b), [setv(lvid("sn"), zl(1))])])
+    # hoch: integral exponents (exact inside the fragment), negative exponents, zero base
+    for a, b in itertools.product((0, 1, 2, -2, 3, 10, -1), (0, 1, 2, 3, 10, -1, -2)):
+        add("bin:pow:%d:%d" % (a, b), bin_("pow", zl(a), zl(b)), TK)
+    for (m, e), b in itertools.product(((1, 1), (3, 1), (-3, 2), (5, 0)), (0, 2, 3, -1)):
+        add("bin:pow:k%d_%d:%d" % (m, e, b), bin_("pow", lit(K(m, e)), zl(b)), TK)
+    add("bin:pow:byte", bin_("pow", lit(B(2)), lit(B(7))), TK)
+    add("bin:pow:k-exponent", bin_("pow", zl(4), lit(K(2, 0))), TK)
+    add("bin:pow:half-exponent", bin_("pow", zl(4), lit(K(1, 1))), TK)
     # operator chains WITHOUT parentheses: the value is the one of the precedence tree (spec/syntax/Precedence.tla)
     csu = [var("pa", TZ, zl(7), False), var("pb", TZ, zl(3), False), var("pc", TZ, zl(2), False), var("pd", TZ, zl(5), False),
            var("qa", TW, lit(W(True)), False), var("qb", TW, lit(W(False)), False)]
@@ -488,6 +496,15 @@ def stmt_cases(tier, rng):
         add("for:K:%d:%d:%s" % (a, b, s), acc_init() + [loop], ident("acc"), TT)
     loop = {"k": "for", "v": "i", "t": TK, "from": lit(K(0)), "to": lit(K(1)), "step": lit(K(1, 2)), "body": [acc_add(as_text(ident("i")))]}
     add("for:K:quarter", acc_init() + [loop], ident("acc"), TT)
+    # Byte counters and Byte bounds; a Byte as the number of repetitions
+    for a, b, st in ((1, 4, None), (250, 255, 2), (5, 1, None), (3, 3, 1), (0, 6, 3)):
+        loop = {"k": "for", "v": "i", "t": TBY, "from": lit(B(a)), "to": lit(B(b)), "step": NONE if st is None else lit(B(st)), "body": [acc_add(as_text(ident("i")))]}
+        add("for:B:%d:%d:%s" % (a, b, st), acc_init() + [loop], ident("acc"), TT)
+    add("for:Z-counter:B-bounds", acc_init() + [{"k": "for", "v": "i", "t": TZ, "from": lit(B(2)), "to": lit(B(5)), "step": lit(B(2)), "body": [acc_add(as_text(ident("i")))]}], ident("acc"), TT)
+    add("for:K-counter:Z-bounds", acc_init() + [{"k": "for", "v": "i", "t": TK, "from": zl(1), "to": zl(2), "step": lit(K(1, 1)), "body": [acc_add(as_text(ident("i")))]}], ident("acc"), TT)
+    add("for:Z-counter:K-end", acc_init() + [{"k": "for", "v": "i", "t": TZ, "from": zl(1), "to": lit(K(7, 1)), "step": NONE, "body": [acc_add(as_text(ident("i")))]}], ident("acc"), TT)
+    for n in (0, 1, 3):
+        add("repeat:byte:%d" % n, acc_init() + [var("j", TZ, zl(0), False), {"k": "repeat", "n": lit(B(n)), "body": [setv(lvid("j"), bin_("plus", ident("j"), zl(1))), acc_add(as_text(ident("j")))]}], ident("acc"), TT)
     # the bound is re-evaluated, the counter is hidden
     add("for:bound-reeval", acc_init() + [var("n", TZ, zl(5), False), {"k": "for", "v": "i", "t": TZ, "from": zl(1), "to": ident("n"), "step": NONE, "body": [
         acc_add(as_text(ident("i"))), setv(lvid("n"), bin_("minus", ident("n"), zl(1)))]}], ident("acc"), TT)
